@@ -115,6 +115,8 @@ def length(draw):
         n = draw(st.integers(0, 9))
     dec = draw(st.sampled_from(["", "", ".5", ".25", ".0", ".125", ".3", ".01", ".999"]))
     sign = draw(st.sampled_from(["", "", "", "", "-"]))
+    # unit keywords may be written in any mix of cases (1CM, 2Pt, 3mM)
+    unit = draw(st.sampled_from([unit, unit, unit, unit.upper(), unit.capitalize(), unit[0] + unit[1:].upper()]))
     return [sign + str(n) + dec, unit]
 
 
@@ -199,6 +201,7 @@ def effect(in_loop):
         st.tuples(c, small).map(lambda t: ["set", t[0], t[1]]),
         st.tuples(st.sampled_from(BOOLS), st.sampled_from(["true", "false", "true", "false", "True", "FALSE"])
                   ).map(lambda t: ["setbool", t[0], t[1]]),
+        st.sampled_from(BOOLS).map(lambda b: ["provide", b]),
         st.just(["math"]),
     ]
     if not in_loop:
